@@ -1,6 +1,7 @@
 (* Props/C01.v — quantize() returns a well-formed model or raises. *)
-From VF Require Import Base.Prelude Gen.Enums Model.Graph Gen.InstChecks
-     Model.Perform Spec.WF Proofs.ListFacts Proofs.PerformStep.
+From VF Require Import Base.Prelude Gen.Enums Gen.Configs Gen.Scopes Model.Recipe Model.Check
+     Model.Graph Gen.InstChecks Model.Insts Model.Perform Model.Plan Model.Pipeline Spec.WF
+     Proofs.ListFacts Proofs.PerformStep Proofs.PerformInv Proofs.InstsSane.
 
 (* Local heart of C01, for ALL subgraphs, tensors, consumer lists, parameters:
    one insertion (QUANTIZE or DEQUANTIZE op + new tensor + rewiring + graph
@@ -47,6 +48,54 @@ Proof.
   repeat split; try assumption; lia.
 Qed.
 Print Assumptions C01_insertion_position.
+
+(* COMPOSITION.  The performer keeps, as a global invariant over ALL its
+   steps, that the two op-id maps resolve every pending instruction's producer
+   reference to the actual position of the op writing the instruction's
+   tensor (Proofs/PerformInv.v: ginv, preserved by apply_single for in-place
+   quantization, insertion, map shifting and instruction retargeting).  Hence
+   for ANY model whose subgraphs are well formed and ANY instruction lists
+   whose producer fields are exact w.r.t. the input graph, the transformed
+   model's subgraphs are well formed: indices in range, one producer per
+   tensor, every producer earlier than its readers, graph I/O in range. *)
+Theorem C01_transform_graph_preserves_wellformedness :
+  forall m tis m',
+    Forall wf_sg (m_subgraphs m) ->
+    (forall ti i, In ti tis -> In i (ti_insts ti) -> sane m (ti_sg ti) i) ->
+    transform_graph m tis = Ok m' ->
+    Forall wf_sg (m_subgraphs m').
+Proof. exact transform_graph_wf. Qed.
+Print Assumptions C01_transform_graph_preserves_wellformedness.
+
+(* ... and every instruction the instruction-generator model emits is exact in
+   that sense, whatever the plan (Proofs/InstsSane.v): so the generator and the
+   performer compose *)
+Theorem C01_generated_instructions_are_exact :
+  forall m ps tis,
+    insts_of_params m ps = Ok tis ->
+    forall ti i, In ti tis -> In i (ti_insts ti) -> sane m (ti_sg ti) i.
+Proof. exact insts_of_params_sane. Qed.
+Print Assumptions C01_generated_instructions_are_exact.
+
+(* the whole modelled pipeline (plan, buffer-sharing check, instruction
+   generation, transformation; tied to quantize() by interface E2): a float
+   model with well-formed subgraphs is mapped to a model with well-formed
+   subgraphs or to an exception — for every recipe state, regex matcher,
+   statistics and parameter-equality oracle *)
+Theorem C01_pipeline_returns_wellformed_subgraphs_or_raises :
+  forall mk_cls matches rules scope_id m scopes stats m' plans,
+    Forall wf_sg (m_subgraphs m) ->
+    pipeline_cls mk_cls matches rules scope_id m scopes stats = Ok (m', plans) ->
+    Forall wf_sg (m_subgraphs m').
+Proof.
+  intros mk_cls matches rules scope_id m scopes stats m' plans Hwf H. unfold pipeline_cls in H.
+  destruct (plan_checked_cls mk_cls matches rules scope_id m scopes stats) as [r|]; cbn [bind] in H; [|discriminate].
+  match type of H with (tis <- ?x ;; _) = _ => destruct x as [tis|] eqn:Ei end; cbn [bind] in H; [|discriminate].
+  destruct (transform_graph m tis) as [m2|] eqn:Et; cbn [bind] in H; [|discriminate].
+  inversion H; subst. eapply transform_graph_wf; [exact Hwf| |exact Et].
+  eapply insts_of_params_sane. exact Ei.
+Qed.
+Print Assumptions C01_pipeline_returns_wellformed_subgraphs_or_raises.
 
 (* Non-vacuity: a concrete well-formed two-op graph whose middle tensor is
    both consumed and exported; inserting a DEQUANTIZE for the graph output and
